@@ -15,9 +15,10 @@ ap.add_argument('pid')
 ap.add_argument('k')
 ap.add_argument('evals', nargs='+')
 ap.add_argument('--note', default='')
+ap.add_argument('--as', dest='as_k', default=None, help='number under which it is kept (default: k)')
 a = ap.parse_args()
 src = '/tmp/seed/%s/mutant_%s' % (a.pid, a.k)
-dst = os.path.join(ROOT, 'seeded', '%s-%s' % (a.pid, a.k))
+dst = os.path.join(ROOT, 'seeded', '%s-%s' % (a.pid, a.as_k or a.k))
 os.makedirs(dst, exist_ok=True)
 for f in ('patch.diff', 'demo.py', 'patch_at_seeding_commit.diff'):
     if os.path.exists(os.path.join(src, f)):
